@@ -125,6 +125,19 @@ def edit_pair(rng):
             base = dict(base)
             base[name] = gen.deep(a)
             target[name] = gen.deep(b if rng.random() < 0.7 else a)
+    if rng.random() < 0.1:
+        # SEVERAL entries removed from one list, an earlier one a partial match of (or equal to) a later one: a list
+        # `$delete` for the earlier pattern already takes the later entry away, and the second `$delete` then finds nothing
+        a = {"port": rng.choice([80, 8080]), "name": rng.choice(["web", "db"])}
+        chain = [dict((k, a[k]) for k in list(a)[:1]), gen.deep(a), dict(a, proto="tcp")]
+        rng.shuffle(chain) if rng.random() < 0.4 else None
+        if rng.random() < 0.3:
+            chain.append(gen.deep(chain[0]))             # a duplicated entry, every copy removed
+        keep = [{"port": 443}, "plain"][:rng.randint(0, 2)]
+        base = dict(base)
+        nm = rng.choice(["ports", "rules"])
+        base[nm] = gen.deep(chain + keep) if rng.random() < 0.6 else gen.deep(keep[:1] + chain + keep[1:])
+        target[nm] = gen.deep(keep + ([chain[-1]] if rng.random() < 0.3 else []))
     if rng.random() < 0.08:
         target = gen.deep(base)
     return base, target
